@@ -715,8 +715,108 @@ def check_designer(case):
   return out
 
 
+def two_designers_strategy():
+  @st.composite
+  def case(draw):
+    n = draw(st.integers(5, 7))
+    pts = draw(st.lists(st.tuples(
+        st.floats(0.05, 0.95, allow_nan=False),
+        st.floats(0.05, 0.95, allow_nan=False)).map(list),
+                        min_size=n, max_size=n, unique_by=lambda p: tuple(p)))
+    return {'points': pts, 'offsets': draw(st.sampled_from(
+        [[0.0, 1e4], [1e4, 0.0], [0.0, 1e8]])),
+            'seed': draw(st.integers(0, 5)), 'rounds': 2}
+  return case()
+
+
+def check_two_designers(case):
+  """Two single-metric GP bandits (two studies of one server process) on very
+  different label scales are asked for predictions at the same time, each from
+  its own thread: every prediction must be on its own study's scale. (Each
+  `sample()` fits its warper, fits the GP - seconds - and un-warps: warper
+  state shared between designers shows as predictions on the other scale.)"""
+  import threading
+  import jax
+  from harness import c14_lib
+  from vizier import pyvizier as vz
+  from vizier._src.algorithms.core import abstractions as vza
+  from vizier._src.algorithms.designers import gp_bandit
+  out = core.Out()
+  kw = c14_lib.gp_kwargs({'max_evaluations': 200, 'ard_maxiter': 5})
+  designers, trials_of, ranges = [], [], []
+  try:
+    for k, off in enumerate(case['offsets']):
+      ps = vz.ProblemStatement()
+      ps.search_space.root.add_float_param('x', 0.0, 1.0)
+      ps.search_space.root.add_float_param('y', 0.0, 1.0)
+      ps.metric_information.append(vz.MetricInformation(
+          'm', goal=vz.ObjectiveMetricGoal.MAXIMIZE))
+      trials, vals = [], []
+      for i, (x, y) in enumerate(case['points']):
+        t = vz.Trial(id=i + 1, parameters={'x': x, 'y': y})
+        v = off + max(off, 1.0) * (x * y if k == 0 else (x + y) / 2.0)
+        vals.append(v)
+        t.complete(vz.Measurement({'m': v}))
+        trials.append(t)
+      d = gp_bandit.VizierGPBandit(
+          ps, rng=jax.random.PRNGKey(case['seed'] + k), **kw)
+      d.update(vza.CompletedTrials(trials), vza.ActiveTrials())
+      designers.append(d)
+      trials_of.append(trials)
+      ranges.append((min(vals), max(vals)))
+  except Exception as e:  # pylint: disable=broad-except
+    out.cls('designer_raised:' + type(e).__name__)
+    out.inconclusive = True
+    return out
+  results = [[] for _ in designers]
+  errors = []
+  start = threading.Barrier(len(designers))
+
+  def worker(k):
+    try:
+      start.wait(timeout=120)
+      for r in range(case['rounds']):
+        pred = designers[k].predict(trials_of[k], num_samples=50)
+        results[k].append(np.asarray(pred.mean, dtype=float).reshape(-1))
+    except Exception as e:  # pylint: disable=broad-except
+      errors.append('%d: %s: %s' % (k, type(e).__name__, str(e)[:200]))
+  threads = [threading.Thread(target=worker, args=(k,))
+             for k in range(len(designers))]
+  for t in threads:
+    t.start()
+  for t in threads:
+    t.join(timeout=900)
+  if errors or any(t.is_alive() for t in threads):
+    out.cls('designer_raised_or_hung_in_thread')
+    out.inconclusive = True
+    return out
+  for k, (lo, hi) in enumerate(ranges):
+    span = max(hi - lo, 1e-9 * max(abs(lo), abs(hi), 1.0))
+    for col in results[k]:
+      if not np.all(np.isfinite(col)):
+        out.violate('designer/concurrent_prediction_nonfinite/gp_bandit',
+                    'study %d predictions %r' % (k, col.tolist()))
+      elif np.any(col < lo - 50 * span) or np.any(col > hi + 50 * span):
+        out.violate('designer/concurrent_prediction_on_other_studys_scale/'
+                    'gp_bandit',
+                    'study %d observed in [%g, %g] but its predictions at the '
+                    'observed points are %r while a designer of another study '
+                    '(labels in [%g, %g]) predicted in another thread' % (
+                        k, lo, hi, col.tolist(), ranges[1 - k][0],
+                        ranges[1 - k][1]))
+  out.cls('two_gp_bandits_in_threads')
+  out.nontrivial = True
+  return out
+
+
 def families(tier):
   return [
+      core.Family('designers_concurrent', check_two_designers,
+                  strategy=two_designers_strategy,
+                  budget={'quick': 2, 'thorough': 12},
+                  shards={'quick': 2, 'thorough': 6},
+                  max_shrink_s={'quick': 0, 'thorough': 0},
+                  required_classes=('two_gp_bandits_in_threads',)),
       core.Family('default', check, strategy=default_strategy,
                   budget={'quick': 3200, 'thorough': 100000},
                   shards={'quick': 6, 'thorough': 16},
